@@ -53,6 +53,12 @@ def gen_fen(rng):
             rights += "k"
         if g.get((7, 0)) == "r" and rng.random() < 0.8:
             rights += "q"
+    if len(rights) > 1 and rng.random() < 0.35:
+        # the castling letters in any order (qkQK, kK, ...): the independent reader accepts every order without repeats, and so
+        # does the pinned engine (seeded change r9C07: a one-pass K-Q-k-q reader that panics on any other spelling)
+        rl = list(rights)
+        rng.shuffle(rl)
+        rights = "".join(rl)
     ep = None
     if rng.random() < 0.4:
         f = rng.randrange(8)
